@@ -28,6 +28,11 @@ Sound == ~WellFormed(st.y, st.z, st.a, st.auth, st.dA, st.dB) => Cardinality(Acc
 ClosedForm == \A r \in {[i \in 1..K |-> (2 * i + 3) % P], [i \in 1..K |-> i % P]} :
    LET Y == Dot(r, st.y)  Y2 == Dot(Sq(r), st.y)  Z == Dot(r, st.z) IN
    Verify(Report(st), r).sigma = Add(Add(Sub(Sub(Add(Mul(Y, Y), Mul(Add(st.auth, st.dA), Y)), Y2), Z), Mul(st.dA, st.a)), st.dB)
+\* the deviation form used by the trace spec of the real code agrees with WellFormed (k = 1, honest A share)
+\* (deviations are small integers there; here they are read modulo P with P-1 = -1, P-2 = -2, P-3 = -3)
+DevAgrees == (K = 1 /\ st.dA = 0) =>
+   LET dz == Sub(st.z[1], Mul(st.auth, st.y[1])) IN
+   WellFormed(st.y, st.z, st.a, st.auth, st.dA, st.dB) = DevWellFormed(st.y[1], dz, st.dB)
 \* round structure: exactly the matching variants progress
 Rounds == \A sk \in Kinds, mk \in Kinds, rd \in {1, 2}, body \in {"sketch", "done"} :
    VerifyNextOK([kind |-> sk, round |-> rd], [kind |-> mk, body |-> body]) = ((rd = 1 /\ body = "sketch" /\ sk = mk) \/ (rd = 2 /\ body = "done"))
